@@ -80,6 +80,10 @@ pub struct AppendStmt {
     pub ttl: Option<WTtl>,
     /// `--context <id>` naming context number k (0 = zero context, 1.. = registered)
     pub context: Option<u8>,
+    /// the piped-in value is the trigger's own content read back through `.cas $frame.hash`
+    /// (nothing when the trigger has no content) instead of `input`
+    #[serde(default)]
+    pub echo: bool,
 }
 
 #[derive(Clone, Debug, PartialEq, Serialize, Deserialize)]
@@ -98,8 +102,9 @@ pub struct C15Case {
     pub ret: Val,
     pub suffix: Option<String>,
     pub ret_ttl: Option<WTtl>,
-    /// triggers: (with content, with meta)
-    pub triggers: Vec<(bool, bool)>,
+    /// triggers: (content kind: 0 none, 1 text, 2 bytes that are not UTF-8, 3 multi-byte text,
+    /// 4 20 000 patterned bytes; with meta)
+    pub triggers: Vec<(u8, bool)>,
 }
 
 fn val_any() -> BoxedStrategy<Val> {
@@ -165,13 +170,15 @@ pub fn strategy() -> BoxedStrategy<C15Case> {
             1 => (1u32..3).prop_map(|k| Some(WTtl::Head(k))),
         ],
         proptest::option::weighted(0.3, 0u8..3),
+        proptest::bool::weighted(0.25),
     )
-        .prop_map(|(topic, input, meta, ttl, context)| AppendStmt {
+        .prop_map(|(topic, input, meta, ttl, context, echo)| AppendStmt {
             topic,
             input,
             meta,
             ttl,
             context,
+            echo,
         });
     (
         0u8..3,
@@ -186,7 +193,7 @@ pub fn strategy() -> BoxedStrategy<C15Case> {
             1 => Just(Some(WTtl::Time(60_000))),
             1 => Just(Some(WTtl::Forever)),
         ],
-        proptest::collection::vec((any::<bool>(), any::<bool>()), 1..=3),
+        proptest::collection::vec((0u8..5, any::<bool>()), 1..=3),
     )
         .prop_map(|(handler_ctx, appends, fail, ret, suffix, ret_ttl, triggers)| C15Case {
             handler_ctx,
@@ -223,7 +230,12 @@ pub fn render(case: &C15Case, ctxs: &[u128]) -> String {
         if fail_pos == Some(i) {
             s.push_str("    error make {msg: \"boom\"}\n");
         }
-        let mut line = format!("    {} | .append {}", a.input.nu(), nu_str(&a.topic));
+        let input = if a.echo {
+            "(if ($frame.hash? != null) { .cas $frame.hash } else { null })".to_string()
+        } else {
+            a.input.nu()
+        };
+        let mut line = format!("    {} | .append {}", input, nu_str(&a.topic));
         if let Some(m) = &a.meta {
             line.push_str(&format!(
                 " --meta {{{}}}",
@@ -276,12 +288,20 @@ fn run_in(case: &C15Case, nu: &mut Nu) -> Result<CaseInfo, Fail> {
         return Err(out(format!("a well-formed handler script was refused: {:?}\n{script}", nu.frames()?.iter().find(|w| w.topic == "h.unregistered"))));
     }
     let mut triggers = Vec::new();
+    let mut trigger_bytes: Vec<Option<Vec<u8>>> = Vec::new();
     for (i, (content, meta)) in case.triggers.iter().enumerate() {
-        let c = format!("trigger-{i}");
+        let c: Option<Vec<u8>> = match content % 5 {
+            0 => None,
+            1 => Some(format!("trigger-{i}").into_bytes()),
+            2 => Some(vec![0xff, 0x00, 0xfe, i as u8, b'\n', 0xc3]),
+            3 => Some(format!("tr\u{e9}\u{2713}-{i}").into_bytes()),
+            _ => Some((0..20_000u32).map(|k| (k.wrapping_mul(31).wrapping_add(i as u32) % 251) as u8).collect()),
+        };
+        trigger_bytes.push(c.clone());
         triggers.push(nu.append(
             "trig",
             hctx,
-            if *content { Some(c.as_bytes()) } else { None },
+            c.as_deref(),
             if *meta { Some(MetaVal::O(vec![("n".into(), MetaVal::I(i as i64))])) } else { None },
         )?);
     }
@@ -346,7 +366,8 @@ fn run_in(case: &C15Case, nu: &mut Nu) -> Result<CaseInfo, Fail> {
                     meta.insert(k.clone(), v.json());
                 }
             }
-            want.push((a.topic.clone(), a.input.piped_bytes(), None, a.ttl.clone(), meta));
+            let bytes = if a.echo { trigger_bytes[ti].clone() } else { a.input.piped_bytes() };
+            want.push((a.topic.clone(), bytes, None, a.ttl.clone(), meta));
         }
         if case.ret != Val::Nothing {
             want.push((format!("h{suffix}"), None, Some(case.ret.json()), case.ret_ttl.clone(), serde_json::Map::new()));
@@ -395,7 +416,8 @@ fn run_in(case: &C15Case, nu: &mut Nu) -> Result<CaseInfo, Fail> {
                 (Some(h), Some(b), _) => {
                     let c = nu.content(h)?;
                     if c != *b {
-                        return Err(Fail::new(Class::Cas, format!("content of {} is {:?}, the script piped in {:?}", g.topic, String::from_utf8_lossy(&c), String::from_utf8_lossy(b))));
+                        let show = |x: &[u8]| format!("{} bytes {:?}", x.len(), String::from_utf8_lossy(&x[..x.len().min(40)]));
+                        return Err(Fail::new(Class::Cas, format!("content of {} is {}, the script piped in {}; script:\n{script}", g.topic, show(&c), show(b))));
                     }
                     if sha256_integrity(&c) != *h {
                         return Err(Fail::new(Class::Cas, format!("content of {} does not hash to its frame's hash", g.topic)));
@@ -436,6 +458,14 @@ fn run_in(case: &C15Case, nu: &mut Nu) -> Result<CaseInfo, Fail> {
         (case.appends.iter().any(|a| a.context.is_some()), "append-names-other-context"),
         (case.suffix.is_some() || case.ret_ttl.is_some(), "return-options"),
         (case.appends.iter().any(|a| a.ttl == Some(WTtl::Ephemeral)) || case.ret_ttl == Some(WTtl::Ephemeral), "ephemeral-output"),
+        (
+            !will_fail && case.appends.iter().any(|a| a.echo) && case.triggers.iter().any(|(c, _)| c % 5 != 0),
+            "trigger-content-echoed-through-.cas",
+        ),
+        (
+            !will_fail && case.appends.iter().any(|a| a.echo) && case.triggers.iter().any(|(c, _)| c % 5 == 2),
+            "non-utf8-content-echoed-through-.cas",
+        ),
     ] {
         if on {
             labels.push(name.to_string());
@@ -460,7 +490,7 @@ pub fn run(tier: Tier, seed: u64, replay: Option<&std::path::Path>) -> i32 {
         80,
         strategy,
         run_case,
-        "handler programs rendered from an AST: 0..4 explicit `.append`s (piped string / binary / record / nothing, --meta with keys that may collide with handler_id/frame_id, --ttl of every kind, --context naming another registered context), optional `error make` before / between / after the appends, return value of every nu type or nothing, optional return_options suffix and ttl, handler registered in the zero or a registered context; 1..3 triggers with and without content/meta, then a `fin` frame the handler must answer. Oracle per trigger: the frames stamped with (handler id, trigger id) are exactly the explicit appends in call order then the return frame on <name><suffix> with the configured TTL; stamps overwrite colliding user keys; all in the handler's context; content in CAS, byte-equal (piped) or JSON-equal (returned); on failure nothing but one <name>.unregistered carrying the error, and nothing for later triggers. Non-trivial = >= 2 explicit appends and a return value, or a failure after >= 1 buffered append, or colliding meta keys. Distinct by script hash.",
+        "handler programs rendered from an AST: 0..4 explicit `.append`s (piped string / binary / record / nothing, --meta with keys that may collide with handler_id/frame_id, --ttl of every kind, --context naming another registered context), optional `error make` before / between / after the appends, return value of every nu type or nothing, optional return_options suffix and ttl, handler registered in the zero or a registered context; 1..3 triggers with and without meta and with content of five kinds (none, text, bytes that are not UTF-8, multi-byte text, 20 000 bytes) which an explicit append may read back through `.cas $frame.hash` and re-append (byte-exact expected), then a `fin` frame the handler must answer. Oracle per trigger: the frames stamped with (handler id, trigger id) are exactly the explicit appends in call order then the return frame on <name><suffix> with the configured TTL; stamps overwrite colliding user keys; all in the handler's context; content in CAS, byte-equal (piped) or JSON-equal (returned); on failure nothing but one <name>.unregistered carrying the error, and nothing for later triggers. Non-trivial = >= 2 explicit appends and a return value, or a failure after >= 1 buffered append, or colliding meta keys. Distinct by script hash.",
         vec![
             "scripts come from templates with generated parameters, not from the nu grammar".to_string(),
             "after an expected failure the absence of further output is observed for 30 ms only".to_string(),
